@@ -128,7 +128,7 @@ def ev_cfg(draw, it, labels):
 
 @st.composite
 def step(draw, nev, nin):
-    op = draw(st.sampled_from(["evaluate"] * 5 + ["construct", "construct", "aggregate", "aggregate", "load_shipped", "keys", "save", "real_pool", "pair_twice"]))
+    op = draw(st.sampled_from(["evaluate"] * 5 + ["construct", "construct", "aggregate", "aggregate", "load_shipped", "keys", "save", "real_pool", "pair_twice", "refill", "refill"]))
     s = {"op": op, "ev": draw(st.integers(0, nev - 1)), "in": draw(st.integers(0, nin - 1))}
     if op in ("evaluate", "real_pool") and draw(st.booleans()):
         s["cpus"] = draw(st.sampled_from([1, 2, 2, 3, 5]))  # number of CPUs the process sees
@@ -136,6 +136,9 @@ def step(draw, nev, nin):
         s.update({"result_all": draw(OPT), "sgt": draw(OPT), "lt": draw(OPT), "vb": draw(OPT)})
     elif op == "pair_twice":
         s["vb"] = draw(st.booleans())
+        s["first"] = draw(st.sampled_from(["same", "extra"]))  # components of the first evaluation of the pair object
+    elif op == "refill":
+        s["how"] = draw(st.sampled_from(["flip", "roll", "exchange", "clear_pred"]))
     elif op == "construct":
         s["what"] = draw(st.sampled_from(["evaluator_default", "handler_default", "naive_default", "merge_default", "evaluator_random_used",
                                           "evaluator_decision_outside_metrics", "evaluator_no_global_metrics", "approximator_default_used", "groups_object"]))
@@ -170,20 +173,26 @@ def history(max_steps):
     def h(draw):
         it = draw(st.sampled_from(["SEMANTIC", "UNMATCHED_INSTANCE", "MATCHED_INSTANCE"]))
         labels = sorted(draw(st.sets(st.integers(1, 6), min_size=1, max_size=4)))
+        if draw(st.integers(0, 3)) == 0:
+            labels.append(300)  # representable in 16-bit inputs only
         nev, nin = draw(st.integers(1, 3)), draw(st.integers(1, 4))
         evs = [draw(ev_cfg(it, labels)) for _ in range(nev)]
-        nd = draw(st.sampled_from([1, 2, 3]))
+        nd0 = draw(st.sampled_from([1, 2, 3]))
+        mixed = draw(st.booleans())  # inputs of different dimensionality / dtype for the same evaluators
         ins = []
         for _ in range(nin):
-            p, r = draw(gen.pair(ndims=(nd,), k=len(labels) + 1, derived_weight=3))
-            ins.append({"pred": _map_to_labels(p, labels).tolist(), "ref": _map_to_labels(r, labels).tolist(), "layout": draw(st.sampled_from(["C", "C", "F", "neg"]))})
+            nd = draw(st.sampled_from([1, 2, 3])) if mixed else nd0
+            dt = draw(st.sampled_from(["uint8", "uint16"]))
+            usable = [l for l in labels if l < 256 or dt != "uint8"]
+            p, r = draw(gen.pair(ndims=(nd,), k=len(usable) + 1, derived_weight=3))
+            ins.append({"pred": _map_to_labels(p, usable).tolist(), "ref": _map_to_labels(r, usable).tolist(), "layout": draw(st.sampled_from(["C", "C", "F", "neg"])), "dtype": dt})
         if it == "SEMANTIC" and draw(st.integers(0, 2)) == 0:
             ins[draw(st.integers(0, nin - 1))] = draw(tie_input(labels[0]))
         if nin >= 2 and draw(st.booleans()):  # one input is another one with prediction and reference exchanged
-            ins[-1] = {"pred": ins[0]["ref"], "ref": ins[0]["pred"], "layout": ins[-1]["layout"]}
+            ins[-1] = {"pred": ins[0]["ref"], "ref": ins[0]["pred"], "layout": ins[-1]["layout"], "dtype": ins[0].get("dtype")}
         steps = draw(st.lists(step(nev, nin), min_size=3, max_size=max_steps))
         extra = draw(ev_cfg(it, labels))
-        return {"input": it, "labels": labels, "dtype": draw(st.sampled_from(["uint8", "uint16"])), "evaluators": evs, "inputs": ins, "steps": steps, "extra": extra}
+        return {"input": it, "labels": labels, "dtype": "uint16", "evaluators": evs, "inputs": ins, "steps": steps, "extra": extra}
     return h()
 
 
@@ -236,13 +245,16 @@ def check(case, stats):
     dtype = case["dtype"]
     base_cache = {}
 
+    version = [0] * len(case["inputs"])  # bumped whenever the caller refills an input's arrays in place
+
     def baseline(i, j):
-        if (i, j) not in base_cache:
-            base_cache[(i, j)] = ask(("eval", case["evaluators"][i], case["inputs"][j]["pred"], case["inputs"][j]["ref"], dtype))
-        return base_cache[(i, j)]
+        key = (i, j, version[j])
+        if key not in base_cache:
+            base_cache[key] = ask(("eval", case["evaluators"][i], arrays[j][0].tolist(), arrays[j][1].tolist(), str(arrays[j][0].dtype)))
+        return base_cache[key]
 
     evs = [H.lib_call(lib.evaluator, c) for c in case["evaluators"]]
-    arrays = [_build_inputs(dtype, x["layout"], x["pred"], x["ref"]) for x in case["inputs"]]
+    arrays = [_build_inputs(x.get("dtype") or dtype, x["layout"], x["pred"], x["ref"]) for x in case["inputs"]]
     copies = [(p.copy(), r.copy()) for p, r in arrays]
     metas = [[(a.dtype, a.shape, a.strides, a.flags.c_contiguous, a.flags.f_contiguous, a.flags.writeable) for a in pr] for pr in arrays]
     scratch = tempfile.mkdtemp(prefix="pv_c15_")
@@ -289,7 +301,24 @@ def check(case, stats):
             else:
                 for t in list(evaluated):
                     touched_since[t] = True
-                if op == "construct":
+                if op == "refill":
+                    # the caller reuses its buffers: new contents in the same array objects
+                    p, r = arrays[j]
+                    how = s["how"]
+                    if how == "flip":
+                        newp, newr = p[::-1].copy(), r[::-1].copy()
+                    elif how == "roll":
+                        newp, newr = np.roll(p, 1, axis=-1), np.roll(r, 1, axis=-1)
+                    elif how == "exchange":
+                        newp, newr = r.copy(), p.copy()
+                    else:
+                        newp, newr = np.zeros_like(p), r.copy()
+                    p[...] = newp
+                    r[...] = newr
+                    copies[j] = (p.copy(), r.copy())
+                    version[j] += 1
+                    stats.count("inputs_refilled_in_place")
+                elif op == "construct":
                     w = s["what"]
                     if w == "evaluator_default":
                         H.lib_call(Panoptica_Evaluator)
@@ -327,26 +356,33 @@ def check(case, stats):
                     # one processing-pair object handed to the pipeline function twice
                     cfg = case["evaluators"][i]
                     pair = H.lib_call(lambda: lib.input_type(cfg["input"]).value(arrays[j][0], arrays[j][1]))
-                    kw = {
-                        "instance_approximator": lib.approximator(cfg.get("backend")) if cfg["input"] == "SEMANTIC" else None,
-                        "instance_matcher": lib.matcher(cfg.get("matcher")) if cfg["input"] != "MATCHED_INSTANCE" else None,
-                        "edge_case_handler": lib.handler(cfg.get("handler")), "verbose": s["vb"],
-                    }
-                    if cfg.get("imetrics") is not None:
-                        kw["instance_metrics"] = [lib.metric(m) for m in cfg["imetrics"]]
-                    if cfg.get("gmetrics") is not None:
-                        kw["global_metrics"] = [lib.metric(m) for m in cfg["gmetrics"]]
-                    if cfg.get("decision"):
-                        kw["decision_metric"], kw["decision_threshold"] = lib.metric(cfg["decision"][0]), cfg["decision"][1]
-                    obs = []
-                    for _ in range(2):
-                        res = H.lib_call(lambda: panoptic_evaluate(input_pair=pair, **kw))[0]
+                    def components(c):
+                        k_ = {
+                            "instance_approximator": lib.approximator(c.get("backend")) if c["input"] == "SEMANTIC" else None,
+                            "instance_matcher": lib.matcher(c.get("matcher")) if c["input"] != "MATCHED_INSTANCE" else None,
+                            "edge_case_handler": lib.handler(c.get("handler")), "verbose": s["vb"],
+                        }
+                        if c.get("imetrics") is not None:
+                            k_["instance_metrics"] = [lib.metric(m) for m in c["imetrics"]]
+                        if c.get("gmetrics") is not None:
+                            k_["global_metrics"] = [lib.metric(m) for m in c["gmetrics"]]
+                        if c.get("decision"):
+                            k_["decision_metric"], k_["decision_threshold"] = lib.metric(c["decision"][0]), c["decision"][1]
+                        return k_
+
+                    def run(pr, k_):
+                        res = H.lib_call(lambda: panoptic_evaluate(input_pair=pr, **k_))[0]
                         with H.quiet():
                             H.lib_call(res.calculate_all)
-                        obs.append(meta.observe(res))
-                    msg = exact_diff(obs[0], obs[1])
+                        return meta.observe(res)
+
+                    kw = components(cfg)
+                    fresh = run(H.lib_call(lambda: lib.input_type(cfg["input"]).value(arrays[j][0], arrays[j][1])), kw)
+                    # the pair object has been through the pipeline before (same components, or those of another configuration)
+                    run(pair, kw if s.get("first", "same") == "same" else components(case["extra"]))
+                    msg = exact_diff(fresh, run(pair, components(cfg)))
                     if msg:
-                        raise Violation(f"{where}: the same {cfg['input']} pair object evaluated twice by panoptic_evaluate gives different results: {msg}")
+                        raise Violation(f"{where}: a {cfg['input']} pair object that went through panoptic_evaluate before ({s.get('first', 'same')} components) gives a different result than a fresh pair object: {msg}")
                     stats.count("pair_objects_evaluated_twice")
                 elif op == "keys":
                     with H.quiet():
